@@ -137,6 +137,12 @@ def main(tier, replay_payload=None):
     from props import C02_xh
     kf = lambda: C02_xh.kernels(tier)
     def replayer(p):
+        if p.get("harness") == "fault":
+            from engine import fault
+            f_args = dict(pids=["a", "b"], contents=[C_ONE, C_MULTI], formats=[None], sym_dirs=False, fake_cid=False)
+            f_menu = lambda w: [step.StoreObj(i, k) for i in range(w.NP) for k in range(w.NK)] + [
+                step.StoreObj(0, 1, add="sha3_256", add_canon="sha3_256", tagname=", additional=sha3_256")]
+            return fault.replay_fault(f_args, f_menu, p["vals"], p["clauses"])
         if p.get("harness") == "sched":
             return conc.replay_schedule(CONC_ARGS, conc_scenarios(tier), p["k"], p["log"], p["bound"], p["clauses"][0])
         return make_replayer(w_args, menu_fn, kf)(p)
@@ -147,6 +153,14 @@ def main(tier, replay_payload=None):
     run.replayer = replayer
     res = step.explore_steps(w_args, menu_fn)
     collect(run, res, MINE, w_args, menu_fn)
+    # a call that succeeds although one file-system operation failed on the way (a retry, a fall-back) still reports
+    # true digests: the C13 fault exploration restricted to store_object, judged for the returned value
+    from engine import fault
+    from props import C13
+    f_args = dict(pids=["a", "b"], contents=[C_ONE, C_MULTI], formats=[None], sym_dirs=False, fake_cid=False)
+    f_menu = lambda w: [step.StoreObj(i, k) for i in range(w.NP) for k in range(w.NK)] + [
+        step.StoreObj(0, 1, add="sha3_256", add_canon="sha3_256", tagname=", additional=sha3_256")]
+    C13.fold(run, fault.explore_faults(f_args, f_menu, 1), "C02:")
     from props.C07 import fold as sched_fold
     sched_fold(run, conc.explore_scenarios(CONC_ARGS, conc_scenarios(tier), 2 if tier == "thorough" else 1), "C02:",
                2 if tier == "thorough" else 1)
